@@ -246,8 +246,36 @@ def rule_sstr_index(c, prog, R="C01.sstr"):
             if src_is_list and enumerates and stores:
                 assigner, loop_node = f, n
     if assigner is None:
-        # ids may be taken in another form (position(), zip with a counter): nothing this clause can order against
-        c.not_decided.append("SharedString id assignment was not recognised as `for (id, s) in list.enumerate() { ids.insert(s, id) }`")
+        # ids taken where the string is discovered: `ids.insert(s, list.len())` next to `list.push(s)` — positions then stay
+        # valid only while the list is append-only
+        REORDER = {"sort", "sort_by", "sort_by_key", "sort_by_cached_key", "sort_unstable", "sort_unstable_by", "sort_unstable_by_key", "reverse", "swap", "swap_remove", "remove",
+                   "retain", "retain_mut", "dedup", "dedup_by", "dedup_by_key", "drain", "truncate", "clear", "rotate_left", "rotate_right", "insert", "pop", "split_off"}
+        lets_by_fn = {}
+        at_discovery = []
+        for f in fns:
+            lets = {st["pat"]["lid"]: st["init"] for st in core.walk_lets(f.body) if st["pat"].get("k") == "Binding" and st.get("init") is not None}
+            for x in core.walk_fn(f):
+                if x.get("k") == "MethodCall" and x["m"] == "insert" and is_field_of_self(x["recv"], IDS) and len(x["args"]) == 2:
+                    v = core.strip(x["args"][1])
+                    if v.get("k") == "Path" and v.get("res") == "local" and v.get("lid") in lets:
+                        v = core.strip(lets[v["lid"]])
+                    if any(y.get("k") == "MethodCall" and y["m"] == "len" and is_field_of_self(y["recv"], VEC) for y in core.walk(v)):
+                        at_discovery.append((f, x))
+        if not at_discovery:
+            c.not_decided.append("SharedString id assignment was not recognised (neither an enumerate() pass nor `list.len()` at discovery)")
+            return
+        bad = []
+        for f in fns:
+            for x in core.walk_fn(f):
+                if x.get("k") == "MethodCall" and is_field_of_self(x["recv"], VEC) and x["m"] in REORDER:
+                    bad.append((f, x))
+        for f, x in at_discovery:
+            c.ok(R, f"sstr-list:id=len() in {f.path.rsplit('::', 1)[-1]}")
+        if bad:
+            f, x = bad[0]
+            c.violation(R, f"reordered|{x['m']}|{f.path.rsplit('::', 1)[-1]}", f"SharedString ids are the list length at the moment a string is discovered, and {f.path} applies `{x['m']}` to that list: the positions the ids were taken from no longer hold, so the indices stored in PROP chunks point at other entries of the SSTR chunk", core.loc(x), instance="sstr-list:append-only")
+        else:
+            c.ok(R, "sstr-list:append-only")
         return
     g = flow.CallGraph(prog)
     inner = g.reach([assigner.path])
@@ -355,6 +383,11 @@ def rule_codes(c, prog, R="C01.codes"):
 
 
 def run(c, prog):
+    common.rule_configured_db(c, prog, "C01.cfgdb", ("rbx_binary",))
+    common.rule_builders(c, prog, "C01.opts", ("rbx_binary",))
+    from . import C16 as _C16
+    from sa import db as _dbm
+    _C16.rule_sername(core.Alias(c, "C01"), prog, _dbm.Database())     # two canonical properties written under one name lose a value
     rule_codes(c, prog)
     rule_uid(c, prog)
     rule_sstr_index(c, prog)
